@@ -154,6 +154,10 @@ class NamespaceFunction(Namespace[symtable.Function]):
                 # free/nonlocal inevitablely exist in outer function namespace
                 # so check is not need here.
                 outer_symbol = outer.symt.lookup(nonlocal_free)
+                if outer_symbol.is_free():
+                    # the name is nonlocal/free in this function as well,
+                    # it was born in a function further out
+                    continue
                 if (
                     outer_symbol.is_assigned()
                     or outer_symbol.is_imported()
@@ -272,6 +276,10 @@ class NamespaceClass(Namespace[symtable.Class]):
                 # free/nonlocal inevitablely exist in outer function namespace
                 # so check is not need here.
                 outer_symbol = outer.symt.lookup(nonlocal_free)
+                if outer_symbol.is_free():
+                    # the name is nonlocal/free in this function as well,
+                    # it was born in a function further out
+                    continue
                 if (
                     outer_symbol.is_assigned()
                     or outer_symbol.is_imported()
